@@ -51,7 +51,7 @@ WHERE = ['r0', 'rlast', 'nterm', 'cterm', 'unknown', 'rule-C-Term', 'rule-N-Term
 
 
 def describe(tier):
-    return {'L': 4 if tier == 'thorough' else 3, 'rule_sets': len(RULES), 'labels': LABELS, 'label_pairs': LABEL_PAIRS,
+    return {'L': 4 if tier == 'thorough' else 3, 'long_strings': LONG_SEQS[:2 if tier == 'thorough' else 1], 'rule_sets': len(RULES), 'labels': LABELS, 'label_pairs': LABEL_PAIRS,
             'ion_types': IONS}
 
 
@@ -62,10 +62,25 @@ def shards(tier):
         for pre in itertools.product(ALPHA, repeat=min(n, 2)):
             out.append({'kind': 'static', 'n': n, 'pre': ''.join(pre)})
             out.append({'kind': 'label', 'n': n, 'pre': ''.join(pre)})
+    out += [{'kind': 'long', 'i': i, 'n': len(LONG_SEQS[i])} for i in range(len(LONG_SEQS) if tier == 'thorough' else 1)]
     return out
 
 
+LONG_SEQS = ['KSMGKSMGKSMK', 'MKGGSGGKGSMGKKSM']     # 12 and 16 residues: target positions with two digits, many targets
+
+
 def gen(shard, tier):
+    if shard['kind'] == 'long':
+        seq = LONG_SEQS[shard['i']]
+        n = len(seq)
+        for ri in range(len(RULES)):
+            for pre in (None, n - 1, 'samelast', 'n'):
+                yield {'kind': 'static', 'seq': seq, 'rule': ri, 'pre': pre}, 1 + (pre is not None), True
+        for labs in [[l] for l in LABELS] + LABEL_PAIRS[:3]:
+            for mod in (None, 'Oxidation', 'Formula:C2H4OS'):
+                for where in (['r0'] if mod is None else ['rlast', 'cterm', 'rule-first-residue']):
+                    yield {'kind': 'label', 'seq': seq, 'labels': labs, 'mod': mod, 'where': where}, len(labs) + (mod is not None), True
+        return
     n = shard['n']
     for t in itertools.product(ALPHA, repeat=n - len(shard['pre'])):
         seq = shard['pre'] + ''.join(t)
